@@ -385,6 +385,9 @@ func stress() {
 			run.Count("phases_with_permitted_loss", 1)
 		}
 		run.Distinct(vk.Hash(r, N, L, warm))
+		if r < 2 {
+			run.Sample(d)
+		}
 	}
 }
 
